@@ -909,3 +909,33 @@ def rule_nullable_string_guarded(ctx):
                     c[1], rf[1], "name" if rf[1] == "vgname" else "class"))
     ctx.floor("NULLNAME", 6, n, "(string reads of a Vgroup's name or class)")
     return n
+
+
+# ---------------------------------------------------------------------------------------------------------------------
+def rule_annotation_length_kept(ctx):
+    """ANNLEN (C18): the copy of an annotation has the length ANannlen reported for the original.  hrepack enlarges the length by one
+    before reading a label (room for the terminating NUL ANreadann adds); that enlarged value must not be the length handed to
+    ANwriteann, or every repack makes the label one byte longer."""
+    prog = ctx.prog
+    n = 0
+    for f in prog.funcs:
+        if "mfhdf/hrepack/" not in f.rel:
+            continue
+        lens = {strip(x[2])[1] for _b, _i, _s, x in f.nodes(True) if x[0] == "asg" and x[1] == "=" and kind(strip(x[2])) == "var" and kind(strip(x[3])) == "call" and strip(x[3])[1] == "ANannlen"}
+        if not lens:
+            continue
+        bumped = {base_var(x[3]) for _b, _i, _s, x in f.nodes(True) if x[0] == "incdec" and x[1] == "++" and base_var(x[3]) in lens}
+        bumped |= {base_var(x[2]) for _b, _i, _s, x in f.nodes(True) if x[0] == "asg" and x[1] == "+=" and base_var(x[2]) in lens}
+        for _b, _i, _s, c in f.calls():
+            if c[1] != "ANwriteann" or len(c[3]) < 3:
+                continue
+            n += 1
+            key = "ANNLEN:%s" % f.name
+            a = strip(c[3][2])
+            if kind(a) == "var" and a[1] in bumped:
+                ctx.violated("ANNLEN", key, f.where(c[5]), "ANwriteann is given `%s`, which was increased after ANannlen set it (room for the NUL when reading a label): the copy is one byte longer "
+                             "than the original, and grows with every repack" % a[1])
+            else:
+                ctx.holds("ANNLEN", key, f.where(c[5]), "the length written is `%s`" % render(a)[:50], nontrivial=True)
+    ctx.floor("ANNLEN", 1, n, "(ANwriteann calls in hrepack functions that query ANannlen)")
+    return n
